@@ -33,6 +33,19 @@ Theorem C14_program_structure : forall n is, Forall instr_wf is ->
 Proof. exact program_parses. Qed.
 Print Assumptions C14_program_structure.
 
+(* the register the emitted program declares is exactly the circuit's width - whatever the gates touch (idle qubits included) *)
+Theorem C14_declared_register : forall n is, Forall instr_wf is ->
+  exists stmts, p_program (program_toks n is) = Some stmts /\ declared_width stmts = Some n.
+Proof.
+  intros n is H. eexists. split; [now apply program_parses|].
+  unfold declared_width. replace header_stmts with (header_stmts ++ []) by apply app_nil_r.
+  assert (F : forall (f : qstmt -> bool) l x r, forallb (fun s => negb (f s)) l = true -> f x = true -> find f (l ++ x :: r) = Some x).
+  { intros f l x r Hl Hx. induction l as [|a l IH]; cbn [app find]; [now rewrite Hx|].
+    cbn [forallb] in Hl. apply andb_true_iff in Hl. destruct Hl as [Ha Hl]. destruct (f a); [discriminate|]. now apply IH. }
+  rewrite app_nil_r. cbn [app]. rewrite F; reflexivity.
+Qed.
+Print Assumptions C14_declared_register.
+
 (* the number of body statements: one per gate instruction, one per measured qubit (three for a custom basis) *)
 Theorem C14_statement_count : forall is k,
   List.length (body_stmts k is) =
